@@ -287,6 +287,9 @@ func (e *engine) check(prop string) *checkResult {
 			if layer == "" && !e.attributed(o, prop, isPrimary[fn], usedBy[fn]) {
 				continue
 			}
+			if layer != "" && o.Kind == "ensures" && !e.attributed(o, prop, isPrimary[fn], usedBy[fn]) {
+				continue
+			}
 			res.obls = append(res.obls, o)
 		}
 	}
